@@ -76,6 +76,10 @@ def tokenize(
                 else:
                     yield token
                     token = Token(source=formula)
+            elif not quote_context:
+                # Empty quoted section (e.g. "{}" or "``"): discard its kind and
+                # source position so that they do not leak into the next token.
+                token = Token(source=formula)
             continue
         if quote_context and char == quote_context[-1]:
             token.update(char, i)
